@@ -479,6 +479,10 @@ class RawAlgorithmsMixIn:
             raise NotImplementedError
         (D,P) = y_data.shape[:2]
 
+        if isinstance(r, numpy.integer):
+            # numpy integer exponents take the same division-free path as python ints
+            r = int(r)
+
         if type(r) == int and r >= 0:
             if r == 0:
                 y_data[...] = 0.
@@ -532,6 +536,9 @@ class RawAlgorithmsMixIn:
         # print 'y_data=',y_data
         # print 'xbar_data=',xbar_data
         # print 'ybar_data=',ybar_data
+
+        if isinstance(r, numpy.integer):
+            r = int(r)
 
         if type(r) == int and r >= 0:
 
